@@ -9,6 +9,7 @@ import Proofs.C11Sess
 import Proofs.C11Ops
 import Proofs.C11Iter
 import Proofs.C11Conc
+import Proofs.C11Gate
 import Proofs.C11Rot
 import Proofs.C11Ident
 /-! # C11 — host selection offers each live node once, nearest and replicas first (property theorems)
@@ -1067,6 +1068,40 @@ theorem C11_cex_cow_unlocked_lost_update :
     (Cow.run false 2 fs (Cow.init [cexW3]) sched).shared = [cexW3, cexW2] ∧
     (Cow.run true 2 fs (Cow.init [cexW3]) (sched ++ [1, 1, 1, 1, 1])).allDone 2 = true ∧
     (Cow.run true 2 fs (Cow.init [cexW3]) (sched ++ [1, 1, 1, 1, 1])).shared = [cexW3, cexW1, cexW2] := by
+  decide
+
+/-- THE GATED SCHEDULE IS DECISIVE (op `gburst`: every call of a burst is held at its first read of one listed
+host until all calls are in progress, then they finish one after the other): for ANY number `n + 1` of concurrent
+`add` calls of hosts whose addresses are free and pairwise different, on ANY list, a `cowHostList.add` that takes
+its snapshot and copies outside the mutex (the class of the seeded change C11-5) ends, under that schedule, with
+exactly ONE of the `n + 1` hosts in the list - all calls return, `n` hosts are lost. (Under the discipline of the
+unchanged code every schedule, this one included, keeps all of them: `C11_cow_concurrent_commute`.) -/
+theorem C11_gated_schedule_decisive (n : Nat) (hosts : Nat → Host) (l0 : List Host)
+    (hfree : ∀ i, ∀ y ∈ l0, y.addr ≠ (hosts i).addr)
+    (hdiff : ∀ i j, (hosts i).addr = (hosts j).addr → i = j) :
+    let s := Cow.run false (n + 1) (fun i l => (cowAdd l (hosts i)).1) (Cow.init l0) (gatedSched (n + 1))
+    s.allDone (n + 1) = true ∧ s.shared = l0 ++ [hosts n] ∧ ∀ i, i < n → hosts i ∉ s.shared := by
+  intro s
+  obtain ⟨h1, h2, _⟩ := gated_unlocked n (fun i l => (cowAdd l (hosts i)).1) l0
+  have hadd : (cowAdd l0 (hosts n)).1 = l0 ++ [hosts n] := by
+    unfold cowAdd
+    rw [if_neg]
+    simp only [List.any_eq_true, equal_iff, not_exists, not_and]
+    intro y hy e
+    exact hfree n y hy e.symm
+  have hs : s.shared = l0 ++ [hosts n] := by rw [← hadd]; exact h2
+  refine ⟨h1, hs, ?_⟩
+  intro i hi hm
+  rw [hs, List.mem_append, List.mem_singleton] at hm
+  rcases hm with hm | hm
+  · exact hfree i _ hm rfl
+  · have := hdiff i n (by rw [hm])
+    omega
+
+/-- non-vacuity: eight joining hosts (the first gated burst of the quick campaign), seven lost -/
+example :
+    let hs : Nat → Host := fun i => ⟨100 + i, 100 + i, 0, 0, []⟩
+    (Cow.run false 8 (fun i l => (cowAdd l (hs i)).1) (Cow.init [cexW3]) (gatedSched 8)).shared = [cexW3, hs 7] := by
   decide
 
 /-! ## rotation of the starting host PER TIER (fourth round; seeded change C11-8)
